@@ -320,7 +320,7 @@ H("C07", "css/validation", "VxH_C07_validators", reach=["validated"], bounds="~1
 H("C07", "css/validation", "VxH_C07_descriptors", reach=["counter-style", "font-face"], bounds="@font-face (9) and @counter-style (11) descriptor names x value of 0..2 tokens over 12 kinds", quick={"shards": 6})
 H("C19", "html/boxes", "VxH_C19_scope", reach=["built"], bounds="body > x-a > x-a1, x-b, x-c; each element one of {nothing, counter-reset c 5, counter-set c 7, counter-increment c 2}; every element prints counters(c, '.')", quick={"maxsteps": 80000000, "shards": 6})
 H("C01", "html/boxes", "VxH_C01_quotes", reach=["built"], bounds="body > x-a > x-b, x-c; ::before/::after of x-a and x-b and ::before of x-c each one of {nothing, open-quote, close-quote, no-open-quote, no-close-quote}; quotes with two pairs (thorough: also one pair)", quick={"maxsteps": 80000000, "shards": 6})
-H("C09", "html/boxes", "VxH_C09_wellformed", reach=["built"], bounds="x-p > x-s > (text, x-i, text, x-j > x-k); display of x-p (2, thorough 3), x-s (3; 4), x-i (9; 19), x-j (5; 19), x-k (3; 4), float and position of x-i (2 each)", quick={"maxsteps": 80000000, "shards": 8}, thorough={"maxsteps": 80000000, "shards": 14})
+H("C09", "html/boxes", "VxH_C09_wellformed", reach=["built"], bounds="x-p > x-s > (text, x-i, text, x-j > x-k); display of x-p (2, thorough 3), x-s (6 incl. inline-grid / inline-flex / grid / flex; 7), x-i (6; 19), x-j (4; 19), x-k (2; 4), float and position of x-i (2 each)", quick={"maxsteps": 80000000, "shards": 8}, thorough={"maxsteps": 80000000, "shards": 14})
 H("C16", "html/document", "VxH_C16_paint", reach=["laid-out", "drawn"], bounds="html > body > (section, article > nav, aside), unique background / border / outline colours; section {static,relative} x {z auto,-1,1} x {opaque,translucent}; article {static,relative} x {z auto,1} x {float none,left}; aside {static,relative} x {z auto,-1,0,1} (thorough: x translucent)", quick={"maxsteps": 200000000, "time": "800s", "shards": 8}, thorough={"maxsteps": 200000000, "shards": 14})
 for _p in ("C15", "C01", "C18"):
     H(_p, "svg", "VxH_C15_svg_templates", reach=["resolved"], bounds="three gradient definitions, href of each one of {none, #g0, #g1, #g2} (all 64 reference graphs, cycles included), visiting order of the definitions map a solver-chosen permutation in two independent runs", quick={"maxsteps": 80000000, "shards": 6})
@@ -335,3 +335,6 @@ H("C07", "html/tree", "VxH_C07_page_selectors", reach=["parsed", "accepted"], bo
 for _p in ("C19", "C01"):
     H(_p, "css/counters", "VxH_C19_fallback_cycles", reach=["terminated", "user-style-renders"], bounds="2 (thorough 3) user styles, each fixed (1 symbol) / alphabetic (2 symbols) / additive (one weight 2) with range auto, fallback any of the user styles, decimal or a missing name; value 0..4", quick={"shards": 4})
 H("C19", "css/counters", "VxH_C19_extends_merge", reach=["rendered"], bounds="a numeric base style (3 digits, range 1..3, pad 2, negative ~) extended by a style that declares or not each of range (unset / auto / two intervals), pad, negative, fallback; value -3..8")
+H("C06", "css/parser", "VxH_C06_escape6", reach=["tokenized", "replaced", "kept"], bounds="backslash + six symbolic hexadecimal digits (either case) + a space: all 16^6 code point values at once", quick={"shards": 6})
+H("C03", "css/selector", "VxH_C05_spec", reach=["done"], bounds="selector specificity composition (:is / :not / :has take their most specific argument), see C05")
+H("C15", "html/document", "VxH_C16_paint", reach=["laid-out", "drawn"], bounds="html > body > (section, article > nav, aside), unique background / border / outline colours; section {static,relative} x {z auto,-1,1} x {opaque,translucent}; article {static,relative} x {z auto,1} x {float none,left}; aside {static,relative} x {z auto,-1,0,1} (thorough: x translucent)", quick={"maxsteps": 200000000, "time": "800s", "shards": 8}, thorough={"maxsteps": 200000000, "shards": 14})
